@@ -61,11 +61,32 @@ func val(v int) interface{} {
 	return v
 }
 
-func runSeq(levels int, hist []sop) (detail string) {
+func runSeq(levels int, hist []sop) (detail string) { return runSeqMode("", levels, hist) }
+
+// runSeqMode: mode "" builds the chain from data scopes; "scope", "scope-stopped", "scope-killed" build it
+// from application scopes (scope.NewChild), the parent being live / stopped / killed when its child is
+// created (a child of an ended scope is not registered with it - its data is an overlay all the same).
+func runSeqMode(mode string, levels int, hist []sop) (detail string) {
 	res := fsx.RunSeq(func() {
-		chain := []app.DataScope{datascope.New(map[interface{}]interface{}{})}
-		for i := 1; i < levels; i++ {
-			chain = append(chain, datascope.NewChild(chain[i-1], map[interface{}]interface{}{}))
+		var chain []app.DataScope
+		if mode == "" {
+			chain = []app.DataScope{datascope.New(map[interface{}]interface{}{})}
+			for i := 1; i < levels; i++ {
+				chain = append(chain, datascope.NewChild(chain[i-1], map[interface{}]interface{}{}))
+			}
+		} else {
+			cur := scope.New(scope.Params{})
+			chain = []app.DataScope{cur}
+			for i := 1; i < levels; i++ {
+				switch mode {
+				case "scope-stopped":
+					cur.Stop()
+				case "scope-killed":
+					cur.Kill()
+				}
+				cur = scope.NewChild(cur, scope.ChildParams{})
+				chain = append(chain, cur)
+			}
 		}
 		model := make([]map[string]interface{}, levels)
 		for i := range model {
@@ -387,8 +408,9 @@ func mkProgram(sp Spec) *explore.Program {
 }
 
 type seqWit struct {
-	Levels int   `json:"levels"`
-	Hist   []sop `json:"history"`
+	Levels int    `json:"levels"`
+	Hist   []sop  `json:"history"`
+	Mode   string `json:"chain_of,omitempty"`
 }
 
 func run(c *fw.Ctx) {
@@ -414,7 +436,7 @@ func run(c *fw.Ctx) {
 						sg = "C13/sequential-deadlock"
 					}
 					if !c.Violated(sg) {
-						c.Violate(&fw.Violation{Property: "C13", Clause: "a child returns its own value when it has one and otherwise the parent's current value; child writes never change the parent", Signature: sg, Detail: d, Witness: fw.JSON(map[string]interface{}{"seq": seqWit{levels, cur}})})
+						c.Violate(&fw.Violation{Property: "C13", Clause: "a child returns its own value when it has one and otherwise the parent's current value; child writes never change the parent", Signature: sg, Detail: d, Witness: fw.JSON(map[string]interface{}{"seq": seqWit{levels, cur, ""}})})
 					} else {
 						c.Violate(&fw.Violation{Signature: sg})
 					}
@@ -428,6 +450,36 @@ func run(c *fw.Ctx) {
 			}
 		}
 		rec(nil)
+	}
+	// A3: the same histories (<= 2 operations) on chains of application scopes whose parents are live,
+	// stopped or killed when the child is created
+	for _, mode := range []string{"scope", "scope-stopped", "scope-killed"} {
+		for levels := 2; levels <= 3; levels++ {
+			alpha := seqAlphabet(levels)
+			var hs [][]sop
+			for _, a := range alpha {
+				hs = append(hs, []sop{a})
+				for _, b := range alpha {
+					hs = append(hs, []sop{a, b})
+				}
+			}
+			for _, h := range hs {
+				item++
+				if !c.Mine(item) {
+					continue
+				}
+				c.R.Evaluations++
+				c.Count("sequential_histories_on_application_scopes", 1)
+				if d := runSeqMode(mode, levels, h); d != "" {
+					sg := "C13/overlay-mismatch/" + mode
+					if !c.Violated(sg) {
+						c.Violate(&fw.Violation{Property: "C13", Clause: "a child returns its own value when it has one and otherwise the parent's current value; setting a value in the child never changes the parent", Signature: sg, Detail: "chain of application scopes (" + mode + "): " + d, Witness: fw.JSON(map[string]interface{}{"seq": seqWit{levels, h, mode}})})
+					} else {
+						c.Violate(&fw.Violation{Signature: sg})
+					}
+				}
+			}
+		}
 	}
 	// B
 	ps := programs(c.Thorough())
@@ -456,7 +508,7 @@ func replay(wj json.RawMessage) (*fw.Violation, error) {
 		return nil, err
 	}
 	if w.Seq != nil {
-		if d := runSeq(w.Seq.Levels, w.Seq.Hist); d != "" {
+		if d := runSeqMode(w.Seq.Mode, w.Seq.Levels, w.Seq.Hist); d != "" {
 			return &fw.Violation{Property: "C13", Clause: "overlay", Signature: "C13/overlay-mismatch", Detail: d}, nil
 		}
 		return nil, nil
